@@ -7,6 +7,7 @@ quick: ALL histories of length <= 5 over a reduced alphabet on a fresh TypeRegis
 (bounded-exhaustive) + random longer histories incl. the library's two global registries."""
 import itertools
 import json
+import typing
 import random
 
 from ..runner import short
@@ -158,7 +159,7 @@ def make_case(i, rng, tier):
     ops = []
     for _ in range(n):
         if rng.random() < 0.5:
-            ops.append(("read", rng.choice(["resolve", "convert", "field_early", "field_late", "encode"]), rng.choice(["A", "B", "C"])))
+            ops.append(("read", rng.choice(["resolve", "convert", "field_early", "field_late", "encode", "generator", "generator"]), rng.choice(["A", "B", "C"])))
         else:
             ops.append(("reg", rng.choice(["transformer", "transformer", "encoder"]), rng.choice(["A", "B", "C"]), rng.random() < 0.7,
                         rng.choice([0, 0, 0, 1, 2, -1])))
@@ -402,6 +403,7 @@ def run_global(case, ctx):
         c: C = None
 
     ours_t, ours_e = [], []
+    gens = {}
     regs = {"transformer": [], "encoder": []}
     first = None
     try:
@@ -444,6 +446,20 @@ def run_global(case, ctx):
                     else:
                         if how == "convert":
                             r = type_transform(7, t)
+                        elif how == "generator":
+                            # a @parse generator that stays suspended between the reads of this history: every item it yields
+                            # is converted by whatever the registrations so far say at THAT moment
+                            if cname not in gens:
+                                def _g():
+                                    while True:
+                                        yield 7
+                                _g.__annotations__ = {"return": typing.Iterator[t]}
+                                gens[cname] = utype.parse(_g)()
+                            try:
+                                r = next(gens[cname])
+                            except BaseException:
+                                gens.pop(cname, None)
+                                raise
                         elif how == "field_early":
                             r = getattr(Early(**{cname.lower(): 7}), cname.lower())
                         else:
